@@ -269,16 +269,33 @@ def c108 : Nat := d 108 2
 def c0915 : Nat := d 915 3
 def c09731 : Nat := d 9731 4
 
-/-- the arithmetic of `Base.Score` after the validity test -/
-def baseScoreF (av ac pr ui s c i a : Int) : Nat :=
-  let changed := s == 2
-  cbv (sub one (mul (mul (sub one (value0 C c)) (sub one (value0 I i))) (sub one (value0 A a)))) fun iss =>
-  cbv (if changed then sub (mul c752 (sub iss c0029)) (mul c325 (powInt (sub iss c002) 15))
-       else mul iss c642) fun impact =>
-  if le impact 0 then 0 else
-  cbv (mul (mul (mul (mul c822 (value0 AV av)) (value0 AC ac)) (valuePR pr s)) (value0 UI ui)) fun ease =>
+/-! The score arithmetic is written as a composition of small "core" functions over the
+    looked-up weights, so that the proofs can evaluate it stage by stage. -/
+
+/-- `1 - (1-c)(1-i)(1-a)` -/
+def issF (c i a : Nat) : Nat := sub one (mul (mul (sub one c) (sub one i)) (sub one a))
+
+/-- base impact from the impact sub-score -/
+def impactBaseF (changed : Bool) (iss : Nat) : Nat :=
+  if changed then sub (mul c752 (sub iss c0029)) (mul c325 (powInt (sub iss c002) 15))
+  else mul iss c642
+
+/-- `8.22 × AV × AC × PR × UI` -/
+def easeF (av ac pr ui : Nat) : Nat := mul (mul (mul (mul c822 av) ac) pr) ui
+
+/-- `roundUp(min(1.08 × (impact + ease), 10))` resp. without the factor -/
+def combine (changed : Bool) (impact ease : Nat) : Nat :=
   if changed then roundUp (fmin (mul c108 (add impact ease)) ten)
   else roundUp (fmin (add impact ease) ten)
+
+def baseCore (changed : Bool) (wc wi wa wav wac wpr wui : Nat) : Nat :=
+  cbv (impactBaseF changed (issF wc wi wa)) fun impact =>
+  if le impact 0 then 0 else combine changed impact (easeF wav wac wpr wui)
+
+/-- the arithmetic of `Base.Score` after the validity test -/
+def baseScoreF (av ac pr ui s c i a : Int) : Nat :=
+  baseCore (s == 2) (value0 C c) (value0 I i) (value0 A a)
+    (value0 AV av) (value0 AC ac) (valuePR pr s) (value0 UI ui)
 
 def baseScore (o : Obj3) : Nat :=
   match getErrorBase o with
@@ -286,31 +303,38 @@ def baseScore (o : Obj3) : Nat :=
   | none => baseScoreF (o.field AV) (o.field AC) (o.field PR) (o.field UI) (o.field S)
               (o.field C) (o.field I) (o.field A)
 
-def temporalScoreF (bs e rl rc : Nat) : Nat :=
-  roundUp (mul (mul (mul bs e) rl) rc)
+/-- `roundUp(x × E × RL × RC)` -/
+def temporalF (x e rl rc : Nat) : Nat := roundUp (mul (mul (mul x e) rl) rc)
 
 def temporalScore (o : Obj3) : Nat :=
   match getErrorTemporal o with
   | some _ => 0
-  | none => temporalScoreF (baseScore o) (value0 E (o.field E)) (value0 RL (o.field RL)) (value0 RC (o.field RC))
+  | none => temporalF (baseScore o) (value0 E (o.field E)) (value0 RL (o.field RL)) (value0 RC (o.field RC))
+
+/-- `min(1 - (1-CR·MC)(1-IR·MI)(1-AR·MA), 0.915)` from the three products -/
+def missF (pc pi pa : Nat) : Nat :=
+  fmin (sub one (mul (mul (sub one pc) (sub one pi)) (sub one pa))) c0915
+
+/-- modified impact from the modified impact sub-score; the polynomial depends on the version -/
+def modImpactF (changed : Bool) (ver : Int) (miss : Nat) : Nat :=
+  if changed then
+    (if ver = 2 then sub (mul c752 (sub miss c0029)) (mul c325 (powInt (sub (mul miss c09731) c002) 13))
+     else sub (mul c752 (sub miss c0029)) (mul c325 (powInt (sub miss c002) 15)))
+  else mul c642 miss
+
+def envCore (changed : Bool) (ver : Int) (pc pi pa wav wac wpr wui e rl rc : Nat) : Nat :=
+  cbv (modImpactF changed ver (missF pc pi pa)) fun mi =>
+  if le mi 0 then 0 else temporalF (combine changed mi (easeF wav wac wpr wui)) e rl rc
 
 /-- the arithmetic of `Environmental.Score` after the validity test -/
 def envScoreF (ver : Int) (f : M3 → Int) : Nat :=
-  cbv (fmin (sub one (mul (mul
-        (sub one (mul (value0 CR (f CR)) (valueMCIA MC (f MC) (f C))))
-        (sub one (mul (value0 IR (f IR)) (valueMCIA MI (f MI) (f I)))))
-        (sub one (mul (value0 AR (f AR)) (valueMCIA MA (f MA) (f A)))))) c0915) fun miss =>
-  let changes := msIsChanged (f MS) (f S)
-  cbv (if changes then
-         (if ver = 2 then sub (mul c752 (sub miss c0029)) (mul c325 (powInt (sub (mul miss c09731) c002) 13))
-          else sub (mul c752 (sub miss c0029)) (mul c325 (powInt (sub miss c002) 15)))
-       else mul c642 miss) fun mi =>
-  if le mi 0 then 0 else
-  cbv (mul (mul (mul (mul c822 (valueMAV (f MAV) (f AV))) (valueMAC (f MAC) (f AC)))
-        (valueMPR (f MPR) (f MS) (f S) (f PR))) (valueMUI (f MUI) (f UI))) fun me =>
-  let t := fun x => mul (mul (mul x (value0 E (f E))) (value0 RL (f RL))) (value0 RC (f RC))
-  if changes then roundUp (t (roundUp (fmin (mul c108 (add mi me)) ten)))
-  else roundUp (t (roundUp (fmin (add mi me) ten)))
+  envCore (msIsChanged (f MS) (f S)) ver
+    (mul (value0 CR (f CR)) (valueMCIA MC (f MC) (f C)))
+    (mul (value0 IR (f IR)) (valueMCIA MI (f MI) (f I)))
+    (mul (value0 AR (f AR)) (valueMCIA MA (f MA) (f A)))
+    (valueMAV (f MAV) (f AV)) (valueMAC (f MAC) (f AC))
+    (valueMPR (f MPR) (f MS) (f S) (f PR)) (valueMUI (f MUI) (f UI))
+    (value0 E (f E)) (value0 RL (f RL)) (value0 RC (f RC))
 
 def envScore (o : Obj3) : Nat :=
   match getErrorEnv o with
